@@ -18,6 +18,8 @@ VERIF = os.path.dirname(os.path.dirname(os.path.abspath(__file__)))
 def run_one(d, tier, props=None):
     meta = json.load(open(os.path.join(d, "meta.json")))
     prop = meta["property"]
+    if meta.get("retired"):
+        return dict(change=os.path.relpath(d, VERIF), property=prop, tier=tier, at=time.strftime("%Y-%m-%dT%H:%M:%S"), result="retired", detail=meta["retired"][:200])
     scratch = tempfile.mkdtemp(prefix="verif_selftest_", dir="/tmp")
     repo = os.path.join(scratch, "repo")
     res = dict(change=os.path.relpath(d, VERIF), property=prop, tier=tier, at=time.strftime("%Y-%m-%dT%H:%M:%S"))
